@@ -2,7 +2,7 @@
 From Coq Require Import Extraction ExtrOcamlBasic.
 From VB Require Import Base IR Sem Roundtrip ClassRT.
 From VB Require Import Classes Consts Common CodecDefs.
-From VB Require Import Mon OQModel Queue QueueDefs.
+From VB Require Import Mon OQModel Queue QueueDefs UFModel.
 Extraction Language OCaml.
 Set Extraction KeepSingleton.
 Extraction "model.ml"
@@ -10,4 +10,5 @@ Extraction "model.ml"
   factory_table format_table object_types method_names fid_objectType fid_objectSize fid_headerSize object_classes rt_ok rt_exceptions name_of_class emitted emit_of pre_of callf
   mk_ustream mk_fstream s_read s_seek prog_of
   mcall oq_methods oq_vt meth abs oq_init
+  uf_init ustep uenabled uf_tellg_val uf_tellp_val uf_good uf_eof c_size
   Z.of_nat Z.to_nat Z.add Z.mul Z.sub Z.div Z.modulo Z.compare Z.eqb Z.ltb Z.opp Z.div_eucl.
